@@ -1,5 +1,7 @@
 import Proofs.BTreeTree
 import Proofs.BTreeCursor5
+import Proofs.BTreeApi
+import Proofs.BTreeCowSess4
 import Generated.C19
 /-!
 # C19 — the copy-on-write B-tree is a correct sorted map with isolated clones
@@ -23,6 +25,15 @@ harness probes which variant the working tree implements and demands corresponde
 L5 (cursors): a cursor position is a split `done ++ rest` of the in-order listing (`CurInv`, a zipper over the
 parents stack); `next` / `prev` / `seek` / `seek_first` / `seek_last` and unparking after arbitrary mutations
 are proved to be navigation in that listing.
+
+Mechanism level (`Model.BTreeCow`): a heap of cells with creator tokens, trees as root pointers, copy-on-write
+exactly where the code copies.  `cow_step_refines` / `cow_run_refines`: every operation of any interleaving on any
+number of trees and clones refines the persistent model; `cow_writes_only_own_cells`: a mutation changes only
+cells created by the operating tree's token; `clone_isolated_mech`: it changes the abstraction of no other tree.
+
+API level: `dict_*` / `set_*` state the `BTreeDict` / `BTreeSet` methods (with the `MutableMapping` /
+`MutableSet` mixins) against the sorted association list; `mutation_parks_registered` and
+`registered_cursor_resumes` put the parking of registered cursors inside the model.
 -/
 namespace C19
 open Model.BTree
@@ -337,5 +348,147 @@ after deleting key 6 from the tree (cursor parked with anchor "after 4"), `next(
 example : ((Cursor.seek witnessRoot 4 true).next witnessRoot).2 = some (4, 0) := by decide
 example : ((((Cursor.seek witnessRoot 4 true).next witnessRoot).1.park).next
     (deleteRoot true 3 witnessRoot 6 none).1).2 = some (8, 0) := by decide
+
+/-! ## the copy-on-write mechanism (`Model.BTreeCow`)
+
+`Sess` = one heap of cells (`creator`, `is_leaf`, `elts`, child addresses) + tree handles (root pointer, own creator
+token).  `Sess.step` runs `BTree(t=…)`, `insert_element`, `delete_key`, `BTree(original=…)`, `make_immutable` on the
+heap, copying exactly where the code copies; `refStep` runs the same operation on a list of independent
+`Model.BTree.Tree` values; `Sess.abs` reads every tree off the heap.  `SessOk` is the session invariant (well-formed
+unshared trees; every cell created by a handed-out token; distinct tokens; no cell created by the token of a mutable
+tree is reachable from another tree). -/
+section Mechanism
+open Model.BTreeCow
+
+/-- "A copy-on-write clone is fully isolated" at mechanism level, one step: the invariant is kept and the
+abstraction of the whole session after the step is the step of the persistent reference — so the operated tree
+behaves as `Model.BTree` says (L1–L3 apply to it) and every other tree is unchanged. -/
+theorem cow_step_refines {s : Sess} (ok : SessOk s) (op : Op) (hop : OpOk op) :
+    SessOk (s.step op) ∧ (s.step op).abs = refStep s.abs op :=
+  step_refines ok op hop
+
+/-- "… for all clone/freeze points in the history": any interleaving of operations on any number of trees and
+clones, starting from the empty session. -/
+theorem cow_run_refines (ops : List Op) (hops : ∀ op ∈ ops, OpOk op) :
+    SessOk (ops.foldl Sess.step Sess.init) ∧
+    (ops.foldl Sess.step Sess.init).abs = ops.foldl refStep [] := by
+  have := run_refines ops hops sessOk_init
+  simpa [Sess.abs, Sess.init] using this
+
+/-- "no mutation of a clone is observable through its original or any other clone": an operation on tree `i`
+leaves the abstraction of every other tree `j` exactly as it was. -/
+theorem clone_isolated_mech {s : Sess} (ok : SessOk s) (op : Op) (hop : OpOk op) (j : Nat) (hj : j < s.hs.length)
+    (hne : op.target ≠ some j) :
+    (s.step op).abs[j]? = s.abs[j]? := by
+  rw [(step_refines ok op hop).2]
+  exact refStep_other s.abs op j (by simpa [Sess.abs] using hj) hne
+
+/-- Every operation on a tree with creator token `c` writes only heap cells whose creator is `c`: cells created
+by other tokens are untouched, no creator changes, every new cell is created by `c`. -/
+theorem cow_writes_only_own_cells {s : Sess} (ok : SessOk s) (i : Nat) (hd : Handle) (hi : s.hs[i]? = some hd)
+    (e : Elt) (k : Nat) :
+    Footprint hd.creator s.w.heap (s.step (.insert i e)).w.heap ∧
+    Footprint hd.creator s.w.heap (s.step (.delete i k)).w.heap :=
+  ⟨insert_footprint ok i e hd hi, delete_footprint ok i k hd hi⟩
+
+/-- non-vacuity: a tree with five keys is frozen and cloned twice; both clones are mutated.  The invariant holds
+(so the theorems above apply), and on the heap the original still reads as before while the clones differ. -/
+def demoOps : List Op :=
+  [.new 3 false true, .insert 0 (1, 1), .insert 0 (2, 2), .insert 0 (3, 3), .insert 0 (4, 4), .insert 0 (5, 5),
+   .freeze 0, .clone 0 false, .clone 0 true, .insert 1 (6, 6), .delete 2 3, .insert 0 (9, 9)]
+
+example : SessOk (demoOps.foldl Sess.step Sess.init) :=
+  (cow_run_refines demoOps (by simp [demoOps, OpOk])).1
+
+example : ((demoOps.foldl Sess.step Sess.init).abs.map Tree.items) =
+    [[(1, 1), (2, 2), (3, 3), (4, 4), (5, 5)],
+     [(1, 1), (2, 2), (3, 3), (4, 4), (5, 5), (6, 6)],
+     [(1, 1), (2, 2), (4, 4), (5, 5)]] := by
+  rw [(cow_run_refines demoOps (by simp [demoOps, OpOk])).2]
+  decide
+
+end Mechanism
+
+/-! ## registered cursors -/
+
+/-- `_check_mutable_and_park`: every mutation that is not rejected parks every registered cursor (and only those),
+and a rejected mutation (frozen tree) parks nothing. -/
+theorem mutation_parks_registered {tc : TreeC} (e : Elt) (k : Nat) (x : Option Elt) :
+    (tc.tree.immutable = false →
+      (tc.insert e).1.cursors = tc.cursors.map (fun bc => if bc.1 then (bc.1, bc.2.park) else bc) ∧
+      (tc.delete k x).1.cursors = tc.cursors.map (fun bc => if bc.1 then (bc.1, bc.2.park) else bc) ∧
+      (tc.insert e).1.tree = (tc.tree.insert e).1 ∧ (tc.delete k x).1.tree = (tc.tree.delete k x).1) ∧
+    (tc.tree.immutable = true → tc.insert e = (tc, .immutableErr) ∧ tc.delete k x = (tc, .immutableErr)) :=
+  ⟨fun hm => ⟨(insert_parks e hm).1, (delete_parks k x hm).1, (insert_parks e hm).2.1, (delete_parks k x hm).2.1⟩,
+   fun hm => frozen_keeps_cursors e k x hm⟩
+
+/-- "cursors kept open across mutations", end to end at the tree-with-cursors level: a registered cursor whose last
+`next()` returned an element with key `K` (so its anchor is `K`, returned, increasing — `cursor_next_refines`),
+after *any* insertion or deletion on its tree, continues with the least element of the tree as it is now whose
+key is greater than `K`. -/
+theorem registered_cursor_resumes {tc : TreeC} (hw : TreeWf tc.tree) (hr : RootOk tc.tree.root)
+    (hm : tc.tree.immutable = false) (hv : tc.tree.collapseAlways = true) (i : Nat) (c : Cursor) (K : Nat)
+    (hc : tc.cursors[i]? = some (true, c)) (hk : c.pkey = some K) (hread : c.pread = true)
+    (hinc : c.increasing = true) (e : Elt) (k : Nat) :
+    ((tc.insert e).1.next i).2 = ((tc.insert e).1.tree.items.filter (fun x => decide (K < x.1))).head? ∧
+    ((tc.delete k none).1.next i).2 = ((tc.delete k none).1.tree.items.filter (fun x => decide (K < x.1))).head? := by
+  have key : ∀ (tc' : TreeC), TreeWf tc'.tree →
+      tc'.cursors = tc.cursors.map (fun bc => if bc.1 then (bc.1, bc.2.park) else bc) →
+      (tc'.next i).2 = (tc'.tree.items.filter (fun x => decide (K < x.1))).head? := by
+    intro tc' hw' hcs
+    have hpc : tc'.cursors[i]? = some (true, c.park) := by rw [hcs]; exact parked_getElem hc
+    obtain ⟨D, R, h1, h2, h3, _⟩ := cursor_unpark_refines hw' c.park K rfl (by simpa [Cursor.park] using hk)
+    have hb : unparkBefore c.park = false := by simp [unparkBefore, Cursor.park, hread, hinc]
+    rw [hb] at h2
+    have hsorted : (D ++ R).Pairwise (fun a b => a.1 < b.1) := by rw [h1]; exact hw'.wf.sorted
+    have := splitAt_after hsorted h2
+    simp only [TreeC.next, TreeC.withCursor, hpc]
+    rw [h3, ← h1, ← this]
+  have hi := insert_parks (tc := tc) e hm
+  have hd := delete_parks (tc := tc) k none hm
+  constructor
+  · exact key _ (by rw [hi.2.1]; exact (insert_refines e hw hm).1) hi.1
+  · exact key _ (by rw [hd.2.1]; exact (delete_refines k hw hr hm hv).1) hd.1
+
+/-! ## the mapping and set API -/
+
+/-- "the B-tree map … behave[s] as a sorted dictionary" at the API the user calls (`BTreeDict` with the
+`MutableMapping` mixin), for a well-formed tree `tr` and reference listing `tr.items`. -/
+theorem dict_reads_refine {tr : Tree} (hw : TreeWf tr) (k : Nat) :
+    Dict.getitem tr k = (match lookup tr.items k with | some e => .ok e.2 | none => .error .keyError) ∧
+    Dict.get tr k = (lookup tr.items k).map (·.2) ∧ Dict.contains tr k = (lookup tr.items k).isSome ∧
+    Dict.len tr = tr.items.length ∧ Dict.keys tr = tr.items.map (·.1) ∧ Dict.items tr = tr.items ∧
+    Dict.values tr = tr.items.map (·.2) :=
+  ⟨dict_getitem hw k, dict_get hw k, dict_contains hw k, hw.size_ok, dict_keys hw, dict_items hw, dict_values hw⟩
+
+/-- `d[k] = v`, `del d[k]` (`KeyError` exactly for an absent key) and `d.pop(k)` on a mutable well-formed
+`BTreeDict` (with the repaired `_delete`). -/
+theorem dict_writes_refine {tc : TreeC} (hw : TreeWf tc.tree) (hr : RootOk tc.tree.root)
+    (hm : tc.tree.immutable = false) (hv : tc.tree.collapseAlways = true) (k v : Nat) :
+    (TreeWf (Dict.setitem tc k v).1.tree ∧ (Dict.setitem tc k v).1.tree.items = insSorted (k, v) tc.tree.items ∧
+      (Dict.setitem tc k v).2 = .ok ()) ∧
+    (TreeWf (Dict.delitem tc k).1.tree ∧ (Dict.delitem tc k).1.tree.items = delKey k tc.tree.items ∧
+      (Dict.delitem tc k).2 = (if (lookup tc.tree.items k).isSome then .ok () else .error .keyError)) ∧
+    ((Dict.pop tc k).2 = (match lookup tc.tree.items k with | some e => .ok e.2 | none => .error .keyError) ∧
+      (Dict.pop tc k).1.tree.items = delKey k tc.tree.items) :=
+  ⟨dict_setitem k v hw hm,
+   let h := dict_delitem k hw hr hm hv; ⟨h.1, h.2.2.1, h.2.2.2⟩,
+   dict_pop k hw hr hm hv⟩
+
+/-- "… and set": `x in s`, `len`, iteration, `add`, `discard`, `remove` (`KeyError` exactly for an absent
+member) of `BTreeSet`. -/
+theorem set_refines {tc : TreeC} (hw : TreeWf tc.tree) (hr : RootOk tc.tree.root)
+    (hm : tc.tree.immutable = false) (hv : tc.tree.collapseAlways = true) (k : Nat) :
+    SetApi.contains tc.tree k = (lookup tc.tree.items k).isSome ∧ SetApi.len tc.tree = tc.tree.items.length ∧
+    SetApi.members tc.tree = tc.tree.items.map (·.1) ∧
+    ((SetApi.add tc k).1.tree.items = insSorted (k, 0) tc.tree.items ∧ (SetApi.add tc k).2 = .ok ()) ∧
+    ((SetApi.discard tc k).1.tree.items = delKey k tc.tree.items ∧ (SetApi.discard tc k).2 = .ok ()) ∧
+    ((lookup tc.tree.items k).isSome = true → (SetApi.remove tc k).2 = .ok () ∧
+        (SetApi.remove tc k).1.tree.items = delKey k tc.tree.items) ∧
+    ((lookup tc.tree.items k).isSome = false → SetApi.remove tc k = (tc, .error .keyError)) :=
+  ⟨set_contains hw k, hw.size_ok, set_members hw,
+   let h := set_add k hw hm; ⟨h.2.1, h.2.2⟩,
+   let h := set_discard k hw hr hm hv; ⟨h.2.2.1, h.2.2.2⟩,
+   (set_remove k hw hr hm hv).1, (set_remove k hw hr hm hv).2⟩
 
 end C19
